@@ -374,10 +374,12 @@ func runC21(r *core.R) {
 		input{"foreign:outline named destinations", c36ForeignOutline(fbm, "named-name-tree-array")},
 		input{"foreign:metadata", c35ForeignDoc()},
 		input{"foreign:shared /Annots array", c21SharedAnnotsDoc()},
+		input{"foreign:two revisions, freed popup still referenced (dangling-free-ref), no Info", docgen.TwoRevisionFreedPopup(false)},
+		input{"foreign:two revisions, freed popup still referenced (dangling-free-ref), Info", docgen.TwoRevisionFreedPopup(true)},
 	)
 	if r.Quick() {
 		for _, f := range docgen.Family(true) {
-			if f.Name == "numbering=dense,extra=shared-indirect-attrs/classic" || f.Name == "numbering=dense,extra=none/indirect-lengths" {
+			if f.Name == "numbering=dense,extra=shared-indirect-attrs/classic" || f.Name == "numbering=dense,extra=none/indirect-lengths" || f.Name == "numbering=dangling-free-ref-twice,extra=none/classic" || f.Name == "numbering=dangling-popup-ref,extra=no-info/classic" || f.Name == "numbering=dangling-popup-ref,extra=none/classic" {
 				inputs = append(inputs, input{f.Name, f.Bytes})
 			}
 		}
@@ -486,7 +488,7 @@ func runC21(r *core.R) {
 			verr := api.Validate(bytes.NewReader(out), c)
 			if verr != nil {
 				key := "output-invalid:" + j.op.name
-				if strings.Contains(j.in.name, "dangling-free-ref") {
+				if strings.Contains(j.in.name, "dangling-free-ref") || strings.Contains(j.in.name, "dangling-popup-ref") {
 					// separate root cause (reuse of a free object number that is still referenced): own key,
 					// so that any other invalid output of the same operation is still reported
 					key += ":input-references-a-free-object"
